@@ -7,18 +7,22 @@ import math
 from fractions import Fraction
 
 from harness.common import Run, coq_Q, coq_bool, coq_list, coq_string, frac
+from harness.translate import c14_readers
 
 META = dict(
     technique="Coq theorems (structural induction over the row list, Permutation) on a line-by-line model of the dataframe readers, "
               "IndividualData.add_observations, Dataset tensor construction and Dataset.to_pandas; the model is executed inside Coq "
               "(vm_compute, exact rationals, executable float64/float32 rounding) on the same generated tables as the implementation "
-              "and every output tensor / counter / error class is compared there",
+              "and every output tensor / counter / error class is compared there; the decision logic of the four dataframe readers (ordered "
+              "checks with their operators, constants, quantifiers, aggregates, exception classes) is regenerated from the source by a "
+              "fail-closed python-ast translator and proved in Coq to be the table the model implements (interpreter of the table = model)",
     level_text="Unbounded theorems (every table, every row permutation, every missing pattern, every layout): ages strictly sorted, "
                "ages/values/mask aligned, mask = real visit and value present, visit and observation counts, individuals in order of first "
                "appearance, row-order invariance (per individual always; whole dataset when first appearances keep their order), every "
                "malformation class of the property text is refused with a data-input error, partial round trip; the full round trip is "
                "refuted twice on the faithful model (order by ID, float32 age collision) and both witnesses replay on the code.",
-    level_note="Trusted: Coq kernel (no axiom: all theorems closed under the global context); pandas semantics as modelled "
+    level_note="Trusted: Coq kernel (no axiom: all theorems closed under the global context); the translator harness/translate/c14_readers.py "
+               "(expected statement skeletons, statements declared without counterpart in the model); pandas semantics as modelled "
                "(groupby(sort=False) order, join, round, duplicated, infer_dtype), numpy/torch float casts (re-executed in Coq by Io/F32.v "
                "and compared exactly), the harness encoding of a generated table both as DataFrame and as Coq literal. Not covered: CSV "
                "parsing, cofactors, column labels other than the covariate names, float64 ties of round(x*1e6).",
@@ -31,10 +35,19 @@ OBLIGATIONS = [
     "C14_rejects", "C14_rejects_never_accepted",
     "C14_roundtrip_partial", "C14_roundtrip_order_refuted", "C14_roundtrip_collision_refuted", "C14_roundtrip_covariate_refuted",
     "C14_categorical_lost_individual_refuted", "C14_event_indicator_nan_refuted", "C14_categorical_id_refuted",
+    # source-level tie (T1): the decision table regenerated from the readers' source
+    "C14_src_table", "C14_src_is_model", "C14_src_rejects", "C14_src_rejects_never_accepted",
+    "C14_src_rejects_event_before_max_age", "C14_src_row_order_invariant_data",
 ]
 
 NAN = float("nan")
 INF = float("inf")
+
+
+def translate(run: Run) -> bool:
+    """T1: regenerate coq/gen/GenC14.v (the ordered decision table of the four dataframe readers) from $VERIF_REPO/src/leaspy."""
+    return c14_readers.translate(run)
+
 
 # ----------------------------------------------------------------------------- table specs
 # A spec is a JSON-serialisable description of the caller's table; floats are written with float.hex()
@@ -845,6 +858,65 @@ def directed_specs():
     return [("F9a", f9a), ("F9b", f9b), ("F9c", f9c)]
 
 
+def directed_order_specs():
+    """Joint / event tables whose decision depends on WHICH aggregate of the rows of an individual is taken: for every aggregate of the
+    regenerated decision table (`max` of the ages and of the indicators, `first` row per ID, `sum` of the offenders' indicators) a row
+    order where last row != maximum, first row != maximum, first row != minimum.  (name, spec, expected outcome)"""
+    def J(ids, time, evt, evb, **k):
+        return dict(layout="joint", id_type="str", ids=ids, time=time, nfeat=1, vals=[[0.5 + 0.125 * i] for i in range(len(ids))],
+                    evt=evt, evb=evb, drop_full_nan=True, **k)
+    return [
+        # b: ages 71 then 70 (LAST row = MINIMAL age), observed event at 70.5: before max - tol, after the last / minimal age
+        ("order:max-first:observed", J(["b", "a", "b"], [71.0, 70.0, 70.0], [70.5, 72.0, 70.5], [1.0, 0.0, 1.0]), "DataError"),
+        ("order:max-first:censored", J(["b", "a", "b"], [71.0, 70.0, 70.0], [70.5, 72.0, 70.5], [0.0, 1.0, 0.0]), "ok"),
+        # maximum in the middle: neither the first nor the last row of b
+        ("order:max-middle:observed", J(["b", "b", "a", "b"], [70.0, 72.0, 70.0, 71.0], [71.5, 71.5, 73.0, 71.5], [1.0, 1.0, 0.0, 1.0]), "DataError"),
+        # maximum last (the order in which every aggregate agrees) and the event exactly tol_diff-close: accepted
+        ("order:max-last:within-tol", J(["b", "b", "a"], [70.0, 71.0, 70.0], [70.9995, 70.9995, 73.0], [1.0, 1.0, 0.0]), "ok"),
+        ("order:max-first:within-tol", J(["b", "b", "a"], [71.0, 70.0, 70.0], [70.9995, 70.9995, 73.0], [1.0, 1.0, 0.0]), "ok"),
+        # minimal age first vs event between min and max, two offenders: one observed one censored (the `sum` of the offenders)
+        ("order:two-offenders", J(["b", "a", "b", "a"], [72.0, 73.0, 70.0, 71.0], [71.0, 72.0, 71.0, 72.0], [1.0, 0.0, 1.0, 0.0]), "DataError"),
+        ("order:two-censored-offenders", J(["b", "a", "b", "a", "c"], [72.0, 73.0, 70.0, 71.0, 70.0], [71.0, 72.0, 71.0, 72.0, 75.0], [0.0, 0.0, 0.0, 0.0, 1.0]), "ok"),
+        # number of events = MAX of the indicators: the maximum is neither the first nor the last individual's
+        ("order:nb-events-max-middle", J(["c", "a", "b"], [70.0, 70.0, 70.0], [75.0, 76.0, 77.0], [1.0, 2.0, 0.0]), "ok"),
+        ("order:nb-events-max-middle:event", dict(layout="event", id_type="str", ids=["c", "a", "b"], nfeat=0, vals=[[], [], []],
+                                                   evt=[75.0, 76.0, 77.0], evb=[1.0, 2.0, 0.0], drop_full_nan=True), "ok"),
+    ]
+
+
+def order_coverage(run, spec, digits):
+    """Which row orders the (joint) case exercises, per individual with at least two rows."""
+    if spec["layout"] != "joint" or not spec["ids"] or spec["id_type"] not in ("str", "int", "cat-str", "cat-int"):
+        return
+    try:
+        per = {}
+        for k in kept_rows(spec):
+            t = spec["time"][k]
+            if t != t or t in (INF, -INF) or spec["ids"][k] is None:
+                return
+            per.setdefault(repr(spec["ids"][k]), []).append((py_round6(t, digits), spec["evt"][k]))
+    except Exception:  # noqa
+        return
+    for rows in per.values():
+        if len(rows) < 2:
+            continue
+        ages = [a for a, _ in rows]
+        if ages[-1] != max(ages):
+            run.count("row_order_vs_aggregate", "last-row-is-not-max-age")
+        if ages[0] != max(ages):
+            run.count("row_order_vs_aggregate", "first-row-is-not-max-age")
+        if ages[0] != min(ages):
+            run.count("row_order_vs_aggregate", "first-row-is-not-min-age")
+        e = rows[0][1]
+        if e == e and e not in (INF, -INF):
+            ez = py_round6(e, digits)
+            tolz = 10 ** digits // 1000
+            if ez - max(ages) < -tolz <= ez - ages[-1]:
+                run.count("row_order_vs_aggregate", "event-before-max-age-but-not-before-last-row-age")
+            if ez - max(ages) < -tolz <= ez - ages[0]:
+                run.count("row_order_vs_aggregate", "event-before-max-age-but-not-before-first-row-age")
+
+
 # ----------------------------------------------------------------------------- the check
 
 
@@ -879,6 +951,7 @@ def check(run: Run):
         run.count("id_type", spec["id_type"])
         run.count("outcome", out[0] if out[0] == "ok" else out[1])
         run.count("rows", min(len(spec["ids"]), 40) // 5 * 5)
+        order_coverage(run, spec, digits)
         nontrivial = out[0] != "ok" or any(v != v for r in spec["vals"] for v in r) or spec.get("row_order") not in ("blocked-sorted",)
         run.case((tag, json.dumps(sj, sort_keys=True)), nontrivial=nontrivial)
         cases.append(f"({coq_table(spec)},\n   {coq_observed(out)})")
@@ -966,6 +1039,28 @@ def check(run: Run):
         r = round_trip(run, spec, out)
         run.extra.setdefault("witness_replays", {})[name] = r
 
+    # directed row orders: one per aggregate of the regenerated decision table (T1), so that the correspondence below and the oracle
+    # here distinguish max / last / first / min whatever the seed
+    for name, spec, expected in directed_order_specs():
+        out = one(spec, name)
+        got = out[0] if out[0] == "ok" else out[1]
+        if got != expected:
+            if expected == "ok":
+                run.fail(f"valid-table-refused:{out[1]}", f"directed table {name} is refused: {out[2]}", spec_json(spec))
+            elif out[0] == "ok":
+                run.fail("rejects:event-before-last-visit:accepted", f"directed table {name}: an observed event before the maximal age of its "
+                         "individual minus tol_diff is accepted", spec_json(spec), expected="LeaspyDataInputError", observed="accepted")
+            else:
+                run.fail(f"rejects:event-before-last-visit:{out[2].split(':')[0]}", f"directed table {name} refused with {out[2]}", spec_json(spec))
+        elif out[0] == "ok" and spec["layout"] == "joint":
+            property_oracle(run, spec, out[1], digits)
+    cov = dict(run.distribution.get("row_order_vs_aggregate", {}))
+    run.extra["row_order_vs_aggregate"] = cov
+    need = ["last-row-is-not-max-age", "first-row-is-not-max-age", "first-row-is-not-min-age", "event-before-max-age-but-not-before-last-row-age",
+            "event-before-max-age-but-not-before-first-row-age"]
+    if any(not cov.get(k) for k in need):
+        run.broken("correspondence:row-orders", f"the generated tables do not exercise every row order the aggregates are sensitive to: {cov}")
+
     # the model, executed inside Coq on the same tables
     bad = run.vm_bad_indices("ingest", header, "table * observed", cases, "(fun c => agree PP (fst c) (snd c))", shard=60 if not thorough else 250)
     for i in bad or []:
@@ -977,6 +1072,7 @@ def check(run: Run):
 
 
 def main(run: Run):
+    translate(run)
     ok_p = run.prove("C14", OBLIGATIONS)
     run.assumptions += [
         "pandas semantics as modelled: groupby(level='ID', sort=False) yields groups in order of first appearance with rows in original order; "
@@ -988,7 +1084,9 @@ def main(run: Run):
         "harness/props/c14.py: encoding of a generated table as DataFrame and as Coq literal; float -> exact rational (as_integer_ratio)",
         "Io/F32.v executable float64/float32 round-to-nearest-even (validated by exact comparison with numpy/torch on every case)",
     ]
-    run.explanation = ("Theorems in Coq over all tables / permutations on a model mirroring the readers line by line; the model is run inside Coq on "
+    run.explanation = ("T1: the ordered decision table of the four dataframe readers is regenerated from the source (coq/gen/GenC14.v) and proved equal to "
+                       "the table whose generic interpretation is proved equal to the hand-written model (Io/IngestSrc*.v). "
+                       "Theorems in Coq over all tables / permutations on a model mirroring the readers line by line; the model is run inside Coq on "
                        "the generated tables and compared field by field with Data.from_dataframe + Dataset; implementation-side oracles: "
                        "from-scratch recomputation of the promised tensors, row-permutation metamorphic test, to_pandas round trip, caller's table untouched.")
     try:
